@@ -2,7 +2,7 @@ package c14
 
 import (
 	"bytes"
-	"encoding/json"
+	"errors"
 	"fmt"
 	"strings"
 	"testing"
@@ -17,45 +17,43 @@ import (
 	"verifharness/stats"
 )
 
-// Native fuzz targets (thorough tier). Oracle on arbitrary bytes b: if decode(b) succeeds then
+// Native fuzz targets (thorough tier). Oracle on arbitrary bytes b: if decode(b) succeeds (and
+// the object passes the type's own validity predicate where one exists) then
 // b2 = encode(decode(b)) can be produced, decode(b2) succeeds, encode(decode(b2)) == b2 and the
 // object's hash is the same on both sides. Seeds are generated valid encodings.
+//
+// A panic of the code under test ends the case silently: crashes on malformed input are the
+// subject of property C15 (whose decoder campaign reuses the generators); the C14 targets only
+// judge objects on which decode, encode and hash all return.
 
 var fuzzLoc = common.Location{0, 0}
 
 const nSeeds = 48
 
-func seeds(f *testing.F, mk func(t *rapid.T) []byte, add func(b []byte)) {
+func seeds(mk func(t *rapid.T) []byte, add func(b []byte)) {
 	g := rapid.Custom(mk)
 	for i := 0; i < nSeeds; i++ {
 		add(g.Example(i))
 	}
 }
 
-type fuzzCtx struct {
-	t        *testing.T
-	target   string
-	in       []byte
-	panicked bool
+type codec[T any] struct {
+	target string
+	dec    func([]byte) (T, error)
+	enc    func(T) ([]byte, error)
+	hash   func(T) string        // optional
+	valid  func(T) bool          // optional: the repository's own well-formedness predicate
+	fp     func(T, error) string // optional: names a recognisable root cause ("" = generic)
 }
 
-func (c *fuzzCtx) fail(fp, format string, a ...any) {
-	if c.panicked {
-		return
-	}
-	if !strings.HasPrefix(fp, "C14/") {
-		fp = "C14/fuzz/" + c.target + "/" + fp
-	}
-	stats.Violation(c.t, "fuzz", fp, fmt.Sprintf(format, a...), map[string]any{"target": c.target, "input": hx(c.in)})
-}
-
-// guard (deferred) swallows a panic of the code under test: crashes on malformed input are the
-// subject of property C15 (its decoder campaign reuses these generators); the C14 targets only
-// judge objects on which decode, encode and hash all return.
-func (c *fuzzCtx) guard(stage string) {
-	if r := recover(); r != nil {
-		c.panicked = true
-	}
+func safely[R any](f func() (R, error)) (r R, err error, panicked bool) {
+	defer func() {
+		if x := recover(); x != nil {
+			panicked = true
+		}
+	}()
+	r, err = f()
+	return
 }
 
 // redecodeFP names the root cause of an undecodable re-encoding where it is recognisable.
@@ -68,145 +66,152 @@ func redecodeFP(err error) string {
 	return ""
 }
 
+func fixedPoint[T any](t *testing.T, k codec[T], b []byte) {
+	fail := func(y T, err error, generic, format string, a ...any) {
+		fp := ""
+		if k.fp != nil {
+			fp = k.fp(y, err)
+		}
+		if fp == "" {
+			fp = redecodeFP(err)
+		}
+		if fp == "" {
+			fp = "C14/fuzz/" + k.target + "/" + generic
+		}
+		stats.Violation(t, "fuzz", fp, fmt.Sprintf(format, a...), map[string]any{"target": k.target, "input": hx(b)})
+	}
+	y, err, p := safely(func() (T, error) { return k.dec(b) })
+	if err != nil || p {
+		return
+	}
+	if k.valid != nil {
+		ok, _, p := safely(func() (bool, error) { return k.valid(y), nil })
+		if !ok || p {
+			return
+		}
+	}
+	b2, err, p := safely(func() ([]byte, error) { return k.enc(y) })
+	if p {
+		return
+	}
+	if err != nil {
+		fail(y, err, "reencode-error", "encoding a decoded object failed: %v", err)
+		return
+	}
+	y2, err, p := safely(func() (T, error) { return k.dec(b2) })
+	if p {
+		return
+	}
+	if err != nil {
+		fail(y, err, "not-redecodable", "encode(decode(b)) does not decode: %v (b2=%x)", err, b2)
+		return
+	}
+	b3, err, p := safely(func() ([]byte, error) { return k.enc(y2) })
+	if p {
+		return
+	}
+	if err != nil || !bytes.Equal(b2, b3) {
+		fail(y, err, "not-fixed-point", "encode(decode(b2)) != b2: %x vs %x (%v)", b3, b2, err)
+		return
+	}
+	if k.hash != nil {
+		h1, _, p1 := safely(func() (string, error) { return k.hash(y), nil })
+		h2, _, p2 := safely(func() (string, error) { return k.hash(y2), nil })
+		if !p1 && !p2 && h1 != h2 {
+			fail(y, nil, "hash", "hash differs between decode(b) and decode(encode(decode(b))): %s vs %s", h1, h2)
+		}
+	}
+}
+
+func decTxProto(b []byte) (*types.Transaction, error) {
+	p := new(types.ProtoTransaction)
+	if err := proto.Unmarshal(b, p); err != nil {
+		return nil, err
+	}
+	y := new(types.Transaction)
+	if err := y.ProtoDecode(p, fuzzLoc); err != nil {
+		return nil, err
+	}
+	return y, nil
+}
+
+func encTxProto(y *types.Transaction) ([]byte, error) {
+	p, err := y.ProtoEncode()
+	if err != nil {
+		return nil, err
+	}
+	return proto.Marshal(p)
+}
+
 func FuzzC14_TxProto(f *testing.F) {
-	seeds(f, func(t *rapid.T) []byte {
-		p, _ := gen.Tx(t, fuzzLoc, -1, nil).ProtoEncode()
-		b, _ := proto.Marshal(p)
+	seeds(func(t *rapid.T) []byte {
+		b, _ := encTxProto(gen.Tx(t, fuzzLoc, -1, nil))
 		return b
 	}, func(b []byte) { f.Add(b) })
-	f.Fuzz(func(t *testing.T, b []byte) {
-		c := &fuzzCtx{t: t, target: "txproto", in: b}
-		dec := func(b []byte) *types.Transaction {
-			p := new(types.ProtoTransaction)
-			if proto.Unmarshal(b, p) != nil {
-				return nil
-			}
-			y := new(types.Transaction)
-			if y.ProtoDecode(p, fuzzLoc) != nil {
-				return nil
-			}
-			return y
-		}
-		enc := func(y *types.Transaction) (out []byte) {
-			defer c.guard("encode")
-			p, err := y.ProtoEncode()
-			if err != nil {
-				c.fail("reencode-error", "ProtoEncode of a decoded tx failed: %v", err)
-				return nil
-			}
-			out, _ = proto.Marshal(p)
-			return out
-		}
-		y := dec(b)
-		if y == nil {
-			return
-		}
-		b2 := enc(y)
-		if b2 == nil {
-			return
-		}
-		y2 := dec(b2)
-		if y2 == nil {
-			c.fail("not-redecodable", "encode(decode(b)) does not decode: %x", b2)
-			return
-		}
-		if b3 := enc(y2); !bytes.Equal(b2, b3) {
-			c.fail("not-fixed-point", "encode(decode(b2)) != b2: %x vs %x", b3, b2)
-		}
-		func() {
-			defer c.guard("hash")
-			if y.Hash() != y2.Hash() {
-				c.fail("hash", "hash differs between decode(b) and decode(encode(decode(b)))")
-			}
-		}()
-	})
+	k := codec[*types.Transaction]{target: "txproto", dec: decTxProto, enc: encTxProto, hash: func(y *types.Transaction) string { return y.Hash().Hex() }}
+	f.Fuzz(func(t *testing.T, b []byte) { fixedPoint(t, k, b) })
 }
 
 func FuzzC14_TxRLP(f *testing.F) {
-	seeds(f, func(t *rapid.T) []byte {
+	seeds(func(t *rapid.T) []byte {
 		b, _ := gen.Tx(t, fuzzLoc, -1, nil).MarshalBinary()
 		return b
 	}, func(b []byte) { f.Add(b) })
-	f.Fuzz(func(t *testing.T, b []byte) {
-		c := &fuzzCtx{t: t, target: "txrlp", in: b}
-		y := new(types.Transaction)
-		if y.UnmarshalBinary(b) != nil {
-			return
-		}
-		var b2 []byte
-		var err error
-		func() {
-			defer c.guard("encode")
-			b2, err = y.MarshalBinary()
-		}()
-		if err != nil || b2 == nil {
-			if err != nil {
-				c.fail("reencode-error", "MarshalBinary of a decoded tx failed: %v", err)
+	k := codec[*types.Transaction]{target: "txrlp",
+		dec: func(b []byte) (*types.Transaction, error) {
+			y := new(types.Transaction)
+			return y, y.UnmarshalBinary(b)
+		},
+		enc:  func(y *types.Transaction) ([]byte, error) { return y.MarshalBinary() },
+		hash: func(y *types.Transaction) string { return y.Hash().Hex() },
+		fp: func(y *types.Transaction, err error) string {
+			if err != nil && y.Type() == types.QuaiTxType && strings.Contains(err.Error(), "input string too short") {
+				return "C14/tx/rlp/decode-error/quai/nil-work-field" // same root cause as in TestC14_Tx
 			}
-			return
-		}
-		y2 := new(types.Transaction)
-		if err := y2.UnmarshalBinary(b2); err != nil {
-			fp := "not-redecodable"
-			if y.Type() == types.QuaiTxType && (y.ParentHash() == nil || y.MixHash() == nil || y.WorkNonce() == nil) {
-				fp = "quai-nil-work-field" // same root cause as C14/tx/rlp/decode-error/quai/nil-work-field
-			}
-			c.fail(fp, "MarshalBinary(UnmarshalBinary(b)) does not decode: %v (%x)", err, b2)
-			return
-		}
-		if b3, _ := y2.MarshalBinary(); !bytes.Equal(b2, b3) {
-			c.fail("not-fixed-point", "re-encoding is not a fixed point: %x vs %x", b3, b2)
-		}
-		func() {
-			defer c.guard("hash")
-			if y.Hash() != y2.Hash() {
-				c.fail("hash", "hash differs between decode(b) and decode(encode(decode(b)))")
-			}
-		}()
-	})
+			return ""
+		}}
+	f.Fuzz(func(t *testing.T, b []byte) { fixedPoint(t, k, b) })
 }
 
 func FuzzC14_TxJSON(f *testing.F) {
-	seeds(f, func(t *rapid.T) []byte {
+	seeds(func(t *rapid.T) []byte {
 		b, _ := gen.Tx(t, fuzzLoc, -1, nil).MarshalJSON()
 		return b
 	}, func(b []byte) { f.Add(b) })
-	f.Fuzz(func(t *testing.T, b []byte) {
-		c := &fuzzCtx{t: t, target: "txjson", in: b}
-		y := new(types.Transaction)
-		if y.UnmarshalJSON(b) != nil {
-			return
-		}
-		var b2 []byte
-		var err error
-		func() {
-			defer c.guard("encode")
-			b2, err = y.MarshalJSON()
-		}()
-		if b2 == nil {
-			if err != nil {
-				c.fail("reencode-error", "MarshalJSON of a decoded tx failed: %v", err)
-			}
-			return
-		}
-		y2 := new(types.Transaction)
-		if err := y2.UnmarshalJSON(b2); err != nil {
-			c.fail("not-redecodable", "MarshalJSON(UnmarshalJSON(b)) does not decode: %v (%s)", err, b2)
-			return
-		}
-		if b3, _ := y2.MarshalJSON(); !bytes.Equal(b2, b3) {
-			c.fail("not-fixed-point", "re-encoding is not a fixed point: %s vs %s", b3, b2)
-		}
-		if y.Hash() != y2.Hash() {
-			c.fail("hash", "hash differs")
-		}
-	})
+	k := codec[*types.Transaction]{target: "txjson",
+		dec: func(b []byte) (*types.Transaction, error) {
+			y := new(types.Transaction)
+			return y, y.UnmarshalJSON(b)
+		},
+		enc:  func(y *types.Transaction) ([]byte, error) { return y.MarshalJSON() },
+		hash: func(y *types.Transaction) string { return y.Hash().Hex() }}
+	f.Fuzz(func(t *testing.T, b []byte) { fixedPoint(t, k, b) })
 }
 
-var fuzzViews = []types.WorkObjectView{types.BlockObject, types.HeaderObject, types.PEtxObject, types.WorkShareTxObject, types.WorkShareObject, types.BlockObjects}
+var fuzzViews = []types.WorkObjectView{types.BlockObject, types.HeaderObject, types.PEtxObject, types.WorkShareTxObject}
+
+func woCodec(view types.WorkObjectView) codec[*types.WorkObject] {
+	return codec[*types.WorkObject]{target: "workobject/" + viewNames[view],
+		dec: func(b []byte) (*types.WorkObject, error) { return decodeWo(b, fuzzLoc, view) },
+		enc: func(y *types.WorkObject) ([]byte, error) {
+			p, err := y.ProtoEncode(view)
+			if err != nil {
+				return nil, err
+			}
+			return proto.Marshal(p)
+		},
+		hash: func(y *types.WorkObject) string { return y.Hash().Hex() + y.SealHash().Hex() },
+		fp: func(y *types.WorkObject, err error) string {
+			if err != nil && y.Body() != nil && y.Body().Header() == nil && strings.Contains(err.Error(), "header to be proto encoded is nil") {
+				// the decoder treats the body header as optional, the encoder does not
+				return "C14/fuzz/headerless-body-not-reencodable"
+			}
+			return ""
+		}}
+}
 
 func FuzzC14_WorkObject(f *testing.F) {
-	seeds(f, func(t *rapid.T) []byte {
+	seeds(func(t *rapid.T) []byte {
 		wo := gen.WorkObject(t, fuzzLoc, gen.WoOpts{Regime: gen.AnyRegime, AuxPow: -1}, nil)
 		v := rapid.IntRange(0, 3).Draw(t, "view")
 		var p *types.ProtoWorkObject
@@ -223,50 +228,15 @@ func FuzzC14_WorkObject(f *testing.F) {
 		b, _ := proto.Marshal(p)
 		return append([]byte{byte(v)}, b...)
 	}, func(b []byte) { f.Add(b[0], b[1:]) })
-	f.Fuzz(func(t *testing.T, v uint8, b []byte) {
-		view := fuzzViews[int(v)%4] // the four views that have an encoder of their own
-		c := &fuzzCtx{t: t, target: "workobject/" + viewNames[view], in: b}
-		y, err := decodeWo(b, fuzzLoc, view)
-		if err != nil {
-			return
-		}
-		enc := func(y *types.WorkObject) (out []byte) {
-			defer c.guard("encode")
-			p, err := y.ProtoEncode(view)
-			if err != nil {
-				fp := "reencode-error"
-				if y.Body() != nil && y.Body().Header() == nil {
-					fp = "headerless-body-not-reencodable" // the decoder treats the body header as optional, the encoder does not
-				}
-				c.fail(fp, "ProtoEncode of a decoded work object failed: %v", err)
-				return nil
-			}
-			out, _ = proto.Marshal(p)
-			return out
-		}
-		b2 := enc(y)
-		if b2 == nil {
-			return
-		}
-		y2, err := decodeWo(b2, fuzzLoc, view)
-		if err != nil {
-			c.fail("not-redecodable", "encode(decode(b)) does not decode: %v", err)
-			return
-		}
-		if b3 := enc(y2); !bytes.Equal(b2, b3) {
-			c.fail("not-fixed-point", "encode(decode(b2)) != b2")
-		}
-		func() {
-			defer c.guard("hash")
-			if y.Hash() != y2.Hash() || y.SealHash() != y2.SealHash() {
-				c.fail("hash", "hash differs between decode(b) and decode(encode(decode(b)))")
-			}
-		}()
-	})
+	var ks []codec[*types.WorkObject]
+	for _, v := range fuzzViews {
+		ks = append(ks, woCodec(v))
+	}
+	f.Fuzz(func(t *testing.T, v uint8, b []byte) { fixedPoint(t, ks[int(v)%len(ks)], b) })
 }
 
 func FuzzC14_Header(f *testing.F) {
-	seeds(f, func(t *rapid.T) []byte {
+	seeds(func(t *rapid.T) []byte {
 		if rapid.Bool().Draw(t, "woh") {
 			p, _ := gen.WorkObjectHeader(t, "wh", fuzzLoc, gen.WoOpts{Regime: gen.AnyRegime, AuxPow: -1}, nil).ProtoEncode()
 			b, _ := proto.Marshal(p)
@@ -276,83 +246,45 @@ func FuzzC14_Header(f *testing.F) {
 		b, _ := proto.Marshal(p)
 		return append([]byte{0}, b...)
 	}, func(b []byte) { f.Add(b[0], b[1:]) })
-	f.Fuzz(func(t *testing.T, kind uint8, b []byte) {
-		if kind%2 == 0 {
-			c := &fuzzCtx{t: t, target: "header", in: b}
-			y, err := decodeHeaderBytes(b, fuzzLoc)
-			if err != nil {
-				return
-			}
-			var b2 []byte
-			func() {
-				defer c.guard("encode")
-				p, err := y.ProtoEncode()
-				if err != nil {
-					c.fail("reencode-error", "%v", err)
-					return
-				}
-				b2, _ = proto.Marshal(p)
-			}()
-			if b2 == nil {
-				return
-			}
-			y2, err := decodeHeaderBytes(b2, fuzzLoc)
-			if err != nil {
-				c.fail("not-redecodable", "encode(decode(b)) does not decode: %v", err)
-				return
-			}
-			p3, _ := y2.ProtoEncode()
-			if b3, _ := proto.Marshal(p3); !bytes.Equal(b2, b3) {
-				c.fail("not-fixed-point", "encode(decode(b2)) != b2")
-			}
-			if y.Hash() != y2.Hash() {
-				c.fail("hash", "hash differs")
-			}
-			return
-		}
-		c := &fuzzCtx{t: t, target: "woheader", in: b}
-		y, err := decodeWoh(b, fuzzLoc)
-		if err != nil {
-			return
-		}
-		enc := func(y *types.WorkObjectHeader) (out []byte) {
-			defer c.guard("encode")
+	kh := codec[*types.Header]{target: "header",
+		dec: func(b []byte) (*types.Header, error) { return decodeHeaderBytes(b, fuzzLoc) },
+		enc: func(y *types.Header) ([]byte, error) {
 			p, err := y.ProtoEncode()
 			if err != nil {
-				c.fail("reencode-error", "%v", err)
-				return nil
+				return nil, err
 			}
-			out, _ = proto.Marshal(p)
-			return out
-		}
-		b2 := enc(y)
-		if b2 == nil {
-			return
-		}
-		y2, err := decodeWoh(b2, fuzzLoc)
-		if err != nil {
-			fp := "not-redecodable"
-			if y.KawpowActivationHappened() && (y.ShaDiffAndCount().Difficulty() == nil || y.ShaDiffAndCount().Count() == nil || y.ShaDiffAndCount().Uncled() == nil ||
-				y.ScryptDiffAndCount().Difficulty() == nil || y.ScryptDiffAndCount().Count() == nil || y.ScryptDiffAndCount().Uncled() == nil) {
-				fp = "partial-share-counter-not-redecodable"
+			return proto.Marshal(p)
+		},
+		hash: func(y *types.Header) string { return y.Hash().Hex() }}
+	kw := codec[*types.WorkObjectHeader]{target: "woheader",
+		dec: func(b []byte) (*types.WorkObjectHeader, error) { return decodeWoh(b, fuzzLoc) },
+		enc: func(y *types.WorkObjectHeader) ([]byte, error) {
+			p, err := y.ProtoEncode()
+			if err != nil {
+				return nil, err
 			}
-			c.fail(fp, "encode(decode(b)) does not decode: %v", err)
-			return
+			return proto.Marshal(p)
+		},
+		hash: func(y *types.WorkObjectHeader) string { return y.Hash().Hex() + y.SealHash().Hex() }}
+	f.Fuzz(func(t *testing.T, kind uint8, b []byte) {
+		if kind%2 == 0 {
+			fixedPoint(t, kh, b)
+		} else {
+			fixedPoint(t, kw, b)
 		}
-		if b3 := enc(y2); !bytes.Equal(b2, b3) {
-			c.fail("not-fixed-point", "encode(decode(b2)) != b2")
-		}
-		func() {
-			defer c.guard("hash")
-			if y.Hash() != y2.Hash() || y.SealHash() != y2.SealHash() {
-				c.fail("hash", "hash differs between decode(b) and decode(encode(decode(b)))")
-			}
-		}()
 	})
 }
 
+// decoded p2p response in re-encodable form
+type p2pResp struct {
+	id   uint32
+	loc  common.Location
+	typ  interface{}
+	data interface{}
+}
+
 func FuzzC14_QuaiMessage(f *testing.F) {
-	seeds(f, func(t *rapid.T) []byte {
+	seeds(func(t *rapid.T) []byte {
 		if rapid.Bool().Draw(t, "req") {
 			r := gen.Request(t, nil)
 			b, _ := pb.EncodeQuaiRequest(r.ID, r.Loc, r.Data, r.RespType)
@@ -362,75 +294,56 @@ func FuzzC14_QuaiMessage(f *testing.F) {
 		b, _ := pb.EncodeQuaiResponse(r.ID, r.Loc, r.RespType, r.Data)
 		return b
 	}, func(b []byte) { f.Add(b) })
-	f.Fuzz(func(t *testing.T, b []byte) {
-		c := &fuzzCtx{t: t, target: "quaimessage", in: b}
-		msg, err := pb.DecodeQuaiMessage(b)
-		if err != nil {
-			return
-		}
-		if resp := msg.GetResponse(); resp != nil {
-			var id uint32
-			var data interface{}
-			func() {
-				defer c.guard("decode")
-				id, data, err = pb.DecodeQuaiResponse(resp)
-			}()
-			if err != nil || data == nil {
-				return
+	skip := errors.New("not a response with a payload")
+	k := codec[*p2pResp]{target: "quaimessage",
+		dec: func(b []byte) (*p2pResp, error) {
+			msg, err := pb.DecodeQuaiMessage(b)
+			if err != nil {
+				return nil, err
 			}
-			loc := common.Location{}
-			loc.ProtoDecode(resp.Location)
-			var typ interface{}
-			switch data.(type) {
+			if req := msg.GetRequest(); req != nil {
+				pb.DecodeQuaiRequest(req) // must return; nothing to re-encode without the caller's types
+				return nil, skip
+			}
+			resp := msg.GetResponse()
+			if resp == nil {
+				return nil, skip
+			}
+			id, data, err := pb.DecodeQuaiResponse(resp)
+			if err != nil {
+				return nil, err
+			}
+			r := &p2pResp{id: id, data: data}
+			r.loc.ProtoDecode(resp.Location)
+			switch d := data.(type) {
 			case *types.WorkObjectBlockView:
-				typ = &types.WorkObjectBlockView{}
+				r.typ = &types.WorkObjectBlockView{}
 			case *types.WorkObjectHeaderView:
-				typ = &types.WorkObjectHeaderView{}
+				r.typ = &types.WorkObjectHeaderView{}
 			case []*types.WorkObjectBlockView:
-				typ = []*types.WorkObjectBlockView{}
+				if len(d) == 0 {
+					return nil, skip // re-encodes as an empty list, which decodes as EmptyResponse by design
+				}
+				r.typ = []*types.WorkObjectBlockView{}
 			case common.Hash:
-				typ = &common.Hash{}
+				r.typ = &common.Hash{}
+			default:
+				return nil, skip
 			}
-			var b2 []byte
-			func() {
-				defer c.guard("encode")
-				b2, err = pb.EncodeQuaiResponse(id, loc, typ, data)
-			}()
-			if b2 == nil {
-				if err != nil {
-					c.fail("reencode-error", "EncodeQuaiResponse of a decoded response failed: %v", err)
-				}
-				return
+			return r, nil
+		},
+		enc: func(r *p2pResp) ([]byte, error) { return pb.EncodeQuaiResponse(r.id, r.loc, r.typ, r.data) },
+		fp: func(r *p2pResp, err error) string {
+			if err != nil && strings.Contains(err.Error(), "header to be proto encoded is nil") {
+				return "C14/fuzz/headerless-body-not-reencodable"
 			}
-			msg2, err := pb.DecodeQuaiMessage(b2)
-			if err != nil || msg2.GetResponse() == nil {
-				c.fail("not-redecodable", "re-encoded response does not decode: %v", err)
-				return
-			}
-			id2, data2, err := pb.DecodeQuaiResponse(msg2.GetResponse())
-			if err != nil || id2 != id {
-				if err == pb.EmptyResponse {
-					return // an empty block list is reported as EmptyResponse by design
-				}
-				c.fail("not-redecodable", "re-encoded response does not decode: %v", err)
-				return
-			}
-			b3, _ := pb.EncodeQuaiResponse(id2, loc, typ, data2)
-			if !bytes.Equal(b2, b3) {
-				c.fail("not-fixed-point", "response re-encoding is not a fixed point")
-			}
-		}
-		if req := msg.GetRequest(); req != nil {
-			func() {
-				defer c.guard("decode")
-				pb.DecodeQuaiRequest(req)
-			}()
-		}
-	})
+			return ""
+		}}
+	f.Fuzz(func(t *testing.T, b []byte) { fixedPoint(t, k, b) })
 }
 
 func FuzzC14_Stored(f *testing.F) {
-	seeds(f, func(t *rapid.T) []byte {
+	seeds(func(t *rapid.T) []byte {
 		switch k := rapid.IntRange(0, 3).Draw(t, "kind"); k {
 		case 0:
 			return append([]byte{0}, gen.Receipts(t, fuzzLoc, false, nil).Bytes(logger)...)
@@ -447,134 +360,65 @@ func FuzzC14_Stored(f *testing.F) {
 			return append([]byte{3}, b...)
 		}
 	}, func(b []byte) { f.Add(b[0], b[1:]) })
+	kr := codec[types.Receipts]{target: "receipts",
+		dec: func(b []byte) (types.Receipts, error) {
+			p := new(types.ProtoReceiptsForStorage)
+			if err := proto.Unmarshal(b, p); err != nil {
+				return nil, err
+			}
+			var rs types.ReceiptsForStorage
+			if err := rs.ProtoDecode(p, fuzzLoc); err != nil {
+				return nil, err
+			}
+			out := make(types.Receipts, len(rs))
+			for i := range rs {
+				out[i] = (*types.Receipt)(rs[i])
+			}
+			return out, nil
+		},
+		enc: func(rs types.Receipts) ([]byte, error) { return rs.Bytes(logger), nil }}
+	kp := codec[*types.PendingEtxs]{target: "pendingetxs",
+		dec: func(b []byte) (*types.PendingEtxs, error) {
+			p := new(types.ProtoPendingEtxs)
+			if err := proto.Unmarshal(b, p); err != nil {
+				return nil, err
+			}
+			y := new(types.PendingEtxs)
+			return y, y.ProtoDecode(p, fuzzLoc)
+		},
+		enc: func(y *types.PendingEtxs) ([]byte, error) {
+			p, err := y.ProtoEncode()
+			if err != nil {
+				return nil, err
+			}
+			return proto.Marshal(p)
+		},
+		hash: func(y *types.PendingEtxs) string { return y.Header.Hash().Hex() }}
+	kt := codec[*types.Termini]{target: "termini",
+		dec: func(b []byte) (*types.Termini, error) {
+			p := new(types.ProtoTermini)
+			if err := proto.Unmarshal(b, p); err != nil {
+				return nil, err
+			}
+			y := new(types.Termini)
+			return y, y.ProtoDecode(p)
+		},
+		enc:   func(y *types.Termini) ([]byte, error) { return proto.Marshal(y.ProtoEncode()) },
+		valid: func(y *types.Termini) bool { return y.IsValid() }}
+	ka := codec[*types.AuxTemplate]{target: "auxtemplate",
+		dec:  decodeTemplateBytes,
+		enc:  func(y *types.AuxTemplate) ([]byte, error) { return proto.Marshal(y.ProtoEncode()) },
+		hash: func(y *types.AuxTemplate) string { h := y.Hash(); return hx(h[:]) }}
 	f.Fuzz(func(t *testing.T, kind uint8, b []byte) {
 		switch kind % 4 {
 		case 0:
-			c := &fuzzCtx{t: t, target: "receipts", in: b}
-			dec := func(b []byte) (types.Receipts, bool) {
-				p := new(types.ProtoReceiptsForStorage)
-				if proto.Unmarshal(b, p) != nil {
-					return nil, false
-				}
-				var rs types.ReceiptsForStorage
-				ok := true
-				func() {
-					defer c.guard("decode")
-					ok = rs.ProtoDecode(p, fuzzLoc) == nil
-				}()
-				if !ok {
-					return nil, false
-				}
-				out := make(types.Receipts, len(rs))
-				for i := range rs {
-					out[i] = (*types.Receipt)(rs[i])
-				}
-				return out, true
-			}
-			rs, ok := dec(b)
-			if !ok {
-				return
-			}
-			var b2 []byte
-			func() {
-				defer c.guard("encode")
-				b2 = rs.Bytes(logger)
-			}()
-			rs2, ok := dec(b2)
-			if !ok {
-				c.fail("not-redecodable", "re-encoded receipts do not decode")
-				return
-			}
-			if b3 := rs2.Bytes(logger); !bytes.Equal(b2, b3) {
-				c.fail("not-fixed-point", "receipt re-encoding is not a fixed point")
-			}
+			fixedPoint(t, kr, b)
 		case 1:
-			c := &fuzzCtx{t: t, target: "pendingetxs", in: b}
-			dec := func(b []byte) *types.PendingEtxs {
-				p := new(types.ProtoPendingEtxs)
-				if proto.Unmarshal(b, p) != nil {
-					return nil
-				}
-				y := new(types.PendingEtxs)
-				if y.ProtoDecode(p, fuzzLoc) != nil {
-					return nil
-				}
-				return y
-			}
-			enc := func(y *types.PendingEtxs) (out []byte) {
-				defer c.guard("encode")
-				p, err := y.ProtoEncode()
-				if err != nil {
-					c.fail("reencode-error", "%v", err)
-					return nil
-				}
-				out, _ = proto.Marshal(p)
-				return out
-			}
-			y := dec(b)
-			if y == nil {
-				return
-			}
-			b2 := enc(y)
-			if b2 == nil {
-				return
-			}
-			y2 := dec(b2)
-			if y2 == nil {
-				c.fail("not-redecodable", "re-encoded pending ETXs do not decode")
-				return
-			}
-			if !bytes.Equal(b2, enc(y2)) {
-				c.fail("not-fixed-point", "pending ETX re-encoding is not a fixed point")
-			}
+			fixedPoint(t, kp, b)
 		case 2:
-			c := &fuzzCtx{t: t, target: "termini", in: b}
-			p := new(types.ProtoTermini)
-			if proto.Unmarshal(b, p) != nil {
-				return
-			}
-			y := new(types.Termini)
-			if y.ProtoDecode(p) != nil {
-				return
-			}
-			var b2 []byte
-			func() {
-				defer c.guard("encode")
-				b2, _ = proto.Marshal(y.ProtoEncode())
-			}()
-			if b2 == nil {
-				return
-			}
-			p2 := new(types.ProtoTermini)
-			proto.Unmarshal(b2, p2)
-			y2 := new(types.Termini)
-			if err := y2.ProtoDecode(p2); err != nil {
-				c.fail("not-redecodable", "%v", err)
-				return
-			}
-			if b3, _ := proto.Marshal(y2.ProtoEncode()); !bytes.Equal(b2, b3) {
-				c.fail("not-fixed-point", "termini re-encoding is not a fixed point")
-			}
+			fixedPoint(t, kt, b)
 		default:
-			c := &fuzzCtx{t: t, target: "auxtemplate", in: b}
-			y, err := decodeTemplateBytes(b)
-			if err != nil {
-				return
-			}
-			b2, _ := proto.Marshal(y.ProtoEncode())
-			y2, err := decodeTemplateBytes(b2)
-			if err != nil {
-				c.fail("not-redecodable", "%v", err)
-				return
-			}
-			if b3, _ := proto.Marshal(y2.ProtoEncode()); !bytes.Equal(b2, b3) {
-				c.fail("not-fixed-point", "template re-encoding is not a fixed point")
-			}
-			if y.Hash() != y2.Hash() {
-				c.fail("hash", "template signing hash differs")
-			}
+			fixedPoint(t, ka, b)
 		}
 	})
 }
-
-var _ = json.Marshal
